@@ -1,0 +1,41 @@
+//go:build verif
+
+package engine
+
+import "context"
+
+// Verification trace hooks. They are nil unless a monitor installs them before a run.
+var (
+	// VerifOnStep is called once per trampoline iteration of Promise.Force with the current stack depth.
+	VerifOnStep func(ctx context.Context, depth int)
+	// VerifOnCut is called when a cut pops the promise stack (depth before and after).
+	VerifOnCut func(before, after int)
+	// VerifOnRecover is called when an error unwinds the promise stack looking for a handler.
+	VerifOnRecover func(before, after int, handled bool)
+	// VerifOnOp is called for every VM instruction executed.
+	VerifOnOp func(op byte)
+)
+
+func verifStep(ctx context.Context, depth int) {
+	if f := VerifOnStep; f != nil {
+		f(ctx, depth)
+	}
+}
+
+func verifCut(before, after int) {
+	if f := VerifOnCut; f != nil {
+		f(before, after)
+	}
+}
+
+func verifRecover(before, after int, handled bool) {
+	if f := VerifOnRecover; f != nil {
+		f(before, after, handled)
+	}
+}
+
+func verifOp(op opcode) {
+	if f := VerifOnOp; f != nil {
+		f(byte(op))
+	}
+}
